@@ -18,7 +18,7 @@ UNORDERED_NAMES = {'vehicles', 'stations', 'bases', 'requests', 'v_locations', '
                    'links', 'this_update', 'charger_update', 'as_station_updates', 'i_stack', 'prices_update', 'station_ids_to_update'}
 UNORDERED_CALLS = {'k_ring', 'h3_to_children', 'set', 'frozenset', 'hex_ring', 'union', 'difference', 'intersection', 'get_entities_at_cell'}
 CONSUMERS = {'reduce', 'map', 'filter', 'min', 'max', 'any', 'all', 'sum', 'tuple', 'list', 'frozenset', 'set', 'next', 'len', 'dict', 'Map', 'enumerate', 'zip'}
-MUTATORS = {'append', 'extend', 'insert', 'pop', 'remove', 'clear', 'update', 'add', 'discard', 'sort', 'reverse', 'setdefault', 'popitem', '__setitem__', 'set_', 'finish'}
+MUTATORS = {'append', 'extend', 'insert', 'pop', 'remove', 'clear', 'update', 'add', 'discard', 'sort', 'reverse', 'setdefault', 'popitem', '__setitem__', '__setattr__', '__delattr__', '__delitem__', 'set_', 'finish'}
 
 def src(node):
     return re.sub(r'\s+', ' ', ast.unparse(node))
@@ -51,6 +51,7 @@ def base_unordered(node):
 class Scan(ast.NodeVisitor):
     def __init__(self, path):
         self.path, self.stack, self.iter_sites, self.mut_sites = path, [], [], []
+        self.stmt_calls = set()
         self.locals = [set()]
     def fn(self):
         return '.'.join(self.stack) or '<module>'
@@ -85,6 +86,10 @@ class Scan(ast.NodeVisitor):
         self.site(node.iter, 'for', node); self.generic_visit(node)
     def visit_comprehension(self, node):
         self.site(node.iter, 'comprehension', node); self.generic_visit(node)
+    def visit_Expr(self, node):
+        if isinstance(node.value, ast.Call):
+            self.stmt_calls.add(id(node.value))
+        self.generic_visit(node)
     def visit_Call(self, node):
         name = node.func.id if isinstance(node.func, ast.Name) else (node.func.attr if isinstance(node.func, ast.Attribute) else None)
         if name == 'sorted' and node.args:
@@ -103,11 +108,15 @@ class Scan(ast.NodeVisitor):
             for a in node.args:
                 if unordered(a) and name not in ('len',):
                     self.iter_sites.append((self.path, self.fn(), src(a), name))
+        if name in ('setattr', 'delattr') and isinstance(node.func, ast.Name) and node.args:
+            self.mut_sites.append((self.path, self.fn(), src(node.func) + '(' + src(node.args[0]) + ', ...)', self.classify(node.args[0]), 'stmt-call'))
         # ---- C16: mutating method calls ----
         if isinstance(node.func, ast.Attribute) and node.func.attr in MUTATORS:
             recv = node.func.value
             # Map.update / Map.set / frozenset.union return new values; only statement-level calls can be in-place effects
-            self.mut_sites.append((self.path, self.fn(), src(node.func), self.classify(recv), 'call'))
+            # a call whose value is used (x = m.update(...), return s.add(...)) is the functional API of immutables.Map /
+            # frozenset / NamedTuple-style records; only a statement-level call can be an in-place effect
+            self.mut_sites.append((self.path, self.fn(), src(node.func), self.classify(recv), 'stmt-call' if id(node) in self.stmt_calls else 'value-call'))
         self.generic_visit(node)
     # ---- C16 ----
     def classify(self, recv):
@@ -127,7 +136,13 @@ class Scan(ast.NodeVisitor):
         for t in node.targets:
             for tt in (t.elts if isinstance(t, ast.Tuple) else [t]):
                 if isinstance(tt, (ast.Attribute, ast.Subscript)):
-                    self.mut_sites.append((self.path, self.fn(), src(tt), self.classify(tt.value), 'assign'))
+                    cls = self.classify(tt.value)
+                    kind = 'assign'
+                    if isinstance(tt, ast.Attribute) and tt.attr == '__cause__':
+                        kind = 'exception-cause'
+                    elif cls == 'self' and self.stack and self.stack[-1] in ('__init__', '__post_init__'):
+                        kind = 'init-self'
+                    self.mut_sites.append((self.path, self.fn(), src(tt), cls, kind))
         self.generic_visit(node)
     def visit_AugAssign(self, node):
         if isinstance(node.target, (ast.Attribute, ast.Subscript)):
